@@ -159,6 +159,10 @@ def direction1(ck, case):
     h.scales = np.array(hd["scales"])
     h.offsets = np.array(hd["offsets"])
     h.creation_date = datetime.date(hd["date"][0], 1, 1) + datetime.timedelta(days=hd["date"][1] - 1)
+    if case["minor"] == 3:
+        # LAS 1.3: the start of the waveform data packet record is a header field like the others (external waveform files leave it 0, internal ones do not)
+        hd["wave"] = [0, 123456789, 2**40 + 7][(case["fmt"] + case["n"]) % 3]
+        h.start_of_waveform_data_packet_record = hd["wave"]
     n = case["n"]
     las.points = laspy.ScaleAwarePointRecord.zeros(n, header=las.header)
     for name, (t, pats) in case["fields"].items():
@@ -206,7 +210,8 @@ def spec_header_fields(data):
     return dict(signature=data[0:4], source_id=int.from_bytes(data[4:6], "little"), guid=bytes(data[8:24]),
                 major=data[24], sysid=bytes(data[26:58]), soft=bytes(data[58:90]),
                 doy=int.from_bytes(data[90:92], "little"), year=int.from_bytes(data[92:94], "little"),
-                scales=list(_st.unpack("<3d", data[131:155])), offsets=list(_st.unpack("<3d", data[155:179])))
+                scales=list(_st.unpack("<3d", data[131:155])), offsets=list(_st.unpack("<3d", data[155:179])),
+                wave=(int.from_bytes(data[227:235], "little") if data[25] >= 3 and len(data) >= 235 else None))
 
 
 def check_header_layout(ck, case, data, inp):
@@ -215,6 +220,8 @@ def check_header_layout(ck, case, data, inp):
     want = dict(signature=b"LASF", source_id=hd["source_id"], guid=hd["guid"], major=1,
                 sysid=hd["sysid"].encode().ljust(32, b"\0"), soft=hd["soft"].encode().ljust(32, b"\0"),
                 doy=hd["date"][1], year=hd["date"][0], scales=hd["scales"], offsets=hd["offsets"])
+    if case["minor"] == 3 and "wave" in hd:
+        want["wave"] = hd["wave"]
     for k, v in want.items():
         if f[k] != v:
             ck.fail(f"public header block: {k} at its ASPRS offset reads {f[k]!r:.80}, assigned {v!r:.80}", dict(inp, header_field=k))
